@@ -50,6 +50,13 @@ def configs(tier):
                     extra -= 1
                 cfgs.append(dict(group='bmc', kind=kind, k=k, n=k + extra, targets=tg,
                                  _cost=(2 * k) ** extra if kind in ('uniform', 'geometric') else 1))
+    sizes = list(range(1, 70)) + [97, 98, 100, 103, 107, 127, 128, 129, 161, 187, 196, 197, 255, 256, 257, 300, 1000]
+    if tier == 'thorough':
+        sizes = list(range(1, 400)) + [511, 512, 513, 1000, 1023, 1024, 1025, 2000]
+    for chunk in range(0, len(sizes), 12):
+        cfgs.append(dict(group='size_sweep', sizes=sizes[chunk:chunk + 12], _cost=50))
+    for kind in ('interval', 'geometric', 'uniform'):
+        cfgs.append(dict(group='bmc', kind=kind, k=2, n=4, targets=True, np_int=True, _cost=50))
     cfgs.append(dict(group='bmc', kind='geometric', k=2, n=5, targets=True, p='sym', _cost=100))
     cfgs.append(dict(group='bmc', kind='geometric', k=2, n=5, targets=True, p='one', _cost=100))
     return cfgs
@@ -122,6 +129,9 @@ def _step(env, cfg):
 
 def _bmc(env, cfg):
     kind, k, n = cfg['kind'], cfg['k'], cfg['n']
+    if cfg.get('np_int'):
+        import numpy as np
+        k = np.int64(k)          # a capacity that is an integer but not a Python int
     tg = cfg['targets']
     if kind == 'batch':
         st = BatchStorage(store_targets=tg)
@@ -164,3 +174,45 @@ def thorough_extra():
     """second engine (corroboration only): CrossHair on the real Interval / Batch / GeometricReservoir storages"""
     from .crosshair_run import run
     return run('ch_storages.py', per_condition_timeout=60)
+
+
+def _size_sweep(env, cfg):
+    """capacity-dependent behaviour at sizes far beyond the symbolic bounds: interval / sequence windows and a geometric
+    reservoir that never (p = 0) resp. always (p = 1, slot 0 scripted) replaces - no random forks, so large sizes are cheap;
+    payloads stay symbolic"""
+    for k in cfg['sizes']:
+        for kind in ('interval', 'geometric_p0', 'geometric_p1'):
+            if kind == 'interval':
+                st = IntervalStorage(size=k, store_targets=True)
+            elif kind == 'geometric_p0':
+                st = GeometricReservoirStorage(size=k, store_targets=True, constant_probability=0.0)
+            else:
+                st = GeometricReservoirStorage(size=k, store_targets=True, constant_probability=1.0)
+            arrived = []
+            n = k + 2
+            for t in range(n):
+                x, y = {'f0': env.real(f"s{k}_{kind}_{t}")}, t
+                if kind == 'geometric_p1' and t >= k:
+                    # always accepted; script the slot draw to 0 so that the sweep does not fork
+                    import sys
+                    mod = sys.modules['ixai.storage.geometric_reservoir_storage']
+                    real_rr = mod.random.randrange
+                    mod.random.randrange = lambda a, b=None, step=1: 0
+                    try:
+                        st.update(x, y)
+                    finally:
+                        mod.random.randrange = real_rr
+                else:
+                    st.update(x, y)
+                arrived.append((x, y))
+            xs, ys = list(st.get_data()[0]), list(st.get_data()[1])
+            if kind == 'interval':
+                exp = list(range(n))[-k:]
+            elif kind == 'geometric_p0':
+                exp = list(range(k))
+            else:
+                exp = [n - 1] + list(range(1, k)) if k >= 1 else []
+            ok = len(st) == k and len(xs) == k and [next((i for i, a in enumerate(arrived) if a[0] is x_), -1) for x_ in xs] == exp \
+                and ys == exp
+            env.claim('capacity_respected_at_every_size', ok, detail=f"{kind} size {k}: len {len(st)}, stored arrivals "
+                                                                    f"{[next((i for i, a in enumerate(arrived) if a[0] is x_), -1) for x_ in xs][:6]}...")
